@@ -39,6 +39,33 @@ def handle (line : String) : String :=
       let db := dbSpec v spec
       s!"db={showJ db} secrets={showJ (db.bind (getSecrets v))} sa={showJ (db.bind (getServiceAccount v))} in={showB (db.bind (getHasInputFiles v))} out={showB (db.bind (getHasOutputFiles v))} ms={showJ (db.bind (getMachineSpec v))}"
     | _, _ => "bad-op"
+  | ["bunch", mjs, jjs] =>
+    -- `bunch <json [[region,idx],…]> <json [[region,…]|null, …]>` ↦ `rejected` | one `n_regions/bits/decoded` per job, `;`-joined
+    match (Lean.Json.parse mjs).toOption.bind ofJson, (Lean.Json.parse jjs).toOption.bind ofJson with
+    | some (.arr ms), some (.arr js) =>
+      let mapping := ms.filterMap fun
+        | .arr [.str r, .int i] => if i ≥ 0 then some (r, i.toNat) else none
+        | _ => none
+      let jobs : List (Option (Option (List String))) := js.map fun
+        | .null => some none
+        | .arr rs => (rs.mapM fun (x : J) => match x with | J.str r => some r | _ => none).map some
+        | _ => none
+      match jobs.mapM id with
+      | none => "bad-op"
+      | some jobs =>
+        if mapping.length ≠ ms.length then "bad-op"
+        else
+          match bunchRegions mapping jobs with
+          | none => "rejected"
+          | some rows =>
+            let o (x : Option Nat) : String := match x with | some n => toString n | none => "-"
+            joinWith ";" (rows.map fun (n, b) =>
+              let dec := match bitsToRegionsOpt b mapping with
+                | some none => "n"
+                | some (some rs) => canon (.arr (rs.map .str))
+                | none => "err"
+              s!"{o n}/{o b}/{dec}")
+    | _, _ => "bad-op"
   | ["bitsnone", mjs] =>
     match (Lean.Json.parse mjs).toOption.bind ofJson with
     | some (.arr ms) =>
